@@ -31,6 +31,28 @@ CHECKS = {
     'C06': ('exploration', 'runtime monitor: history-memory model vs observed restoring micro steps',
             'The model reconstructs what was active at the last exit of each history parent and compares every restore.',
             'trusted: reference model, generator domain (history-heavy mode)', '§4 C06'),
+    'C07': ('exploration', 'runtime differential monitor: real run vs real run under permuted declarations, repetition and other PYTHONHASHSEED child processes',
+            'Lock-step comparison of every macro step between builds of one abstract chart that differ only in declaration '
+            'order (API and YAML), a repetition, and trace digests recomputed in child processes with other hash seeds.',
+            'trusted: canonical projection in vf/lockstep.py; hash seeds and permutations are sampled', '§4 C07'),
+    'C08': ('fault_enumeration', 'runtime monitor: trace-grammar checker on fault-free runs + single-fault enumeration over condition occurrences',
+            'Every condition is a probe; the fault-free log must match the documented checkpoint grammar incl. __old__ values; '
+            'then each (sampled / every) condition occurrence is made to fail and the raised class, obj, condition and the '
+            'end of the log are checked.',
+            'trusted: probes via initial_context; invariant-block order between states canonicalised', '§4 C08'),
+    'C09': ('exploration', 'runtime differential monitor: contract-checked run vs ignore_contract=True run in lock-step',
+            'Generated contract charts (incl. would-fail conditions, time predicates) and the two shipped contract charts; '
+            'steps, contexts, code sequence and meta-event streams compared; zero condition evaluations when ignored.',
+            'trusted: lock-step projection; conditions side-effect free apart from probes', '§4 C09'),
+    'C10': ('exploration', 'runtime monitor: meta-event stream checker (listener + recording property statechart), k-th-event fail-fast fault plan, with/without differential',
+            'The stream received by a listener and by a bound property statechart must equal the stream implied by the '
+            'MacroStep, interleaved with the code probes; a property chart turning final at meta-event k must make that call '
+            'raise with the log ending at k; never-final property charts must not change the run.',
+            'trusted: expected-stream construction from the MacroStep (itself validated by C03)', '§4 C10'),
+    'C13': ('exploration', 'runtime monitor: logged predicate values vs time-stamp model, clock moved between and inside steps',
+            'time/after/idle values logged by guards and contract conditions are recomputed exactly from observed entry/'
+            'firing stamps; time frozen per step under mid-step clock moves.',
+            'trusted: stamp model in vf/props/c13.py; dyadic times', '§4 C13'),
 }
 
 NOT_YET = {
